@@ -23,7 +23,8 @@ def run_one(seed, preset=None, tier="quick", want_case=False):
 
     def doc_knobs(t):
         return {"max_depth": t.choose([4, 3, 5]), "max_sel": t.choose([5, 3, 6]), "frag_pct": t.choose([18, 30, 8]),
-                "var_pct": t.choose([25, 45, 10, 0]), "skip_pct": t.choose([12, 25]), "directive_vars": t.chance(70)}
+                "var_pct": t.choose([25, 45, 10, 0]), "skip_pct": t.choose([12, 25]), "directive_vars": t.chance(70),
+                "skip_null_pct": t.choose([0, 30])}
 
     r = run_single(ID, seed, preset, want_case, schema_knobs=schema_knobs, doc_knobs=doc_knobs)
     if r.get("early"):
